@@ -17,7 +17,7 @@ Python here only renders, runs and compares projections; every expected value co
 import glob, json, os, re, subprocess, sys
 import vlib, ilparse
 
-DEVIATIONS = ["EmptyBraceNoFocus", "BraceNoReset", "UnionCover", "AutoBackZero",
+DEVIATIONS = ["CompositeKeepsNew", "SharedIncompleteType", "EmptyBraceNoFocus", "BraceNoReset", "UnionCover", "AutoBackZero",
               "ReplaceEndOnly"]
 ACTIONS = ["Read", "Designate", "Advance", "Focus", "OpenBrace", "EmptyBrace", "StartExpr", "ExprFocus", "AddString",
            "AddScalar", "CloseBrace", "initadd:skip", "initadd:insert-before", "initadd:append", "initadd:replace",
@@ -34,19 +34,19 @@ def load_tables(ctx):
     return json.loads(r.vcases[0])
 
 
-def declarator(tab, t, name):
-    """C declarator of an object `name` of spec type t (returns (specifier, declarator))."""
+def declarator(tab, t, name, open_bound=False):
+    """C declarator of an object `name` of spec type t (returns (specifier, declarator)); open_bound: outermost [] empty."""
     ty = tab["ty"][t]
     if ty["kind"] == "arr":
         spec, d = declarator(tab, ty["base"], "")
-        return spec, "%s[%s]%s" % (name, ty["n"] or "", d)
+        return spec, "%s[%s]%s" % (name, "" if open_bound else (ty["n"] or ""), d)
     if ty["kind"] in ("int", "ptr", "flt"):
         return SCALARS[t], name
     return "%s %s" % (ty["kind"], t), name
 
 
-def decl(tab, t, name):
-    spec, d = declarator(tab, t, name)
+def decl(tab, t, name, open_bound=False):
+    spec, d = declarator(tab, t, name, open_bound)
     if spec.endswith("*"):
         return spec + d
     return spec + " " + d
@@ -55,7 +55,8 @@ def decl(tab, t, name):
 def body(tab, t):
     ty = tab["ty"][t]
     out = []
-    for m in ty["mems"]:
+    for k, m in enumerate(ty["mems"], 1):
+        out += [u["c"] for u in ty.get("pre", []) if u["at"] == k]        # unnamed bit-fields
         mt = tab["ty"][m["ty"]]
         if m["name"] == "":
             out.append("%s { %s};" % (mt["kind"], body(tab, m["ty"])))
@@ -125,8 +126,20 @@ def render_init(case):
     return "".join(out)
 
 
-def render_decl(tab, case, name):
-    return "%s = %s;" % (decl(tab, case["ty"], name), render_init(case))
+def render_decl(tab, case, name, forms=False):
+    """forms=True: honour the declaration form of the case (file scope only); otherwise the plain declaration."""
+    f = case.get("form", "plain") if forms else "plain"
+    t, init = case["ty"], render_init(case)
+    if f == "redecl-extern":
+        return "extern %s; %s = %s;" % (decl(tab, t, name), decl(tab, t, name, True), init)
+    if f == "redecl-tent":
+        return "%s; %s = %s;" % (decl(tab, t, name), decl(tab, t, name, True), init)
+    if f in ("shared-big", "shared-small"):
+        td = "A_" + name
+        return "typedef %s; %s %s_0 = {%s}; %s %s = %s;" % (decl(tab, t, td), td, name, "0, 0, 0, 0, 0" if f == "shared-big" else "0", td, name, init)
+    if f == "alignas":
+        return "_Alignas(int[4]) %s = %s;" % (decl(tab, t, name), init)
+    return "%s = %s;" % (decl(tab, t, name), init)
 
 
 def ptr_offsets(tab, t, size):
@@ -182,11 +195,14 @@ def observed_rel(mod, rel):
 def compare(case, size, align, img, rel, tab, want_img=None, want_rel=None, full=True):
     """None when the observed projection is the expected one, else a short reason."""
     exp_img = case["img"] if want_img is None else want_img
-    if size != case["size"]:
-        return "size %d != %d" % (size, case["size"])
-    if align is not None and align != tab["ty"][case["ty"]]["align"]:
-        return "align %d != %d" % (align, tab["ty"][case["ty"]]["align"])
+    if size != len(exp_img):
+        return "size %d != %d" % (size, len(exp_img))
+    want_align = case.get("al", tab["ty"][case["ty"]]["align"])
+    if align is not None and align != want_align:
+        return "align %d != %d" % (align, want_align)
     unc = case["unc"] if (case["unc"] and want_img is None) else [0] * size
+    if len(unc) != size:
+        unc = [0] * size
     for k in range(size):
         if (img[k] ^ exp_img[k]) & ~unc[k] & 0xff:
             return "byte %d: %d != %d" % (k, img[k], exp_img[k])
@@ -202,7 +218,7 @@ def run_static(ctx, tab, cases, objdir):
     pre = prelude(tab)
 
     def one(case):
-        src = pre + render_decl(tab, case, "x") + "\n"
+        src = pre + render_decl(tab, case, "x", True) + "\n"
         rc, out, err = vlib.cproc(objdir, src)
         return src, rc, out, err
     results = vlib.pmap(one, cases, workers=16)
@@ -212,7 +228,7 @@ def run_static(ctx, tab, cases, objdir):
         nontrivial = len(case["toks"]) > 1
         ctx.count(key, nontrivial=nontrivial)
         fired = sorted(case["sfired"])
-        info = {"type": case["ty"], "tokens": case["toks"], "source": render_decl(tab, case, "x"),
+        info = {"type": case["ty"], "tokens": case["toks"], "source": render_decl(tab, case, "x", True),
                 "expected": {"size": case["size"], "bytes": case["img"], "rel": sorted(expected_rel(case["rel"], True))},
                 "model": {"status": case["mst"], "fired": fired, "bytes": case["mimg"]}, "case": case}
         obs = None
@@ -255,11 +271,11 @@ def run_static(ctx, tab, cases, objdir):
                 explained = "image"
         if explained:
             for dv in fired:
-                ctx.violation("dev:%s:%s" % (dv, explained), "%s: %s" % (render_decl(tab, case, "x"), why), info)
+                ctx.violation("dev:%s:%s" % (dv, explained), "%s: %s" % (render_decl(tab, case, "x", True), why), info)
         else:
             kind = why.split(":")[0].split(" ")[0]
             ctx.violation("static:%s:%s" % (case["ty"], kind),
-                          "static object image differs from Init.tla: %s -- %s" % (render_decl(tab, case, "x"), why), info)
+                          "static object image differs from Init.tla: %s -- %s" % (render_decl(tab, case, "x", True), why), info)
     ctx.validated(len(cases))
 
 
@@ -295,7 +311,7 @@ def gcc_audit_chunk(ctx, tab, cases, tag):
              "}\n"]
     main = ["int main(void) {\n"]
     for i, c in enumerate(cases):
-        lines.append(render_decl(tab, c, "x%d" % i) + "\n")
+        lines.append(render_decl(tab, c, "x%d" % i, True) + "\n")
         po = ptr_offsets(tab, c["ty"], c["size"])
         main.append("  dump(%d, (const unsigned char *)&x%d, sizeof x%d, __alignof__(x%d), (const int[]){%s-1});\n"
                     % (i, i, i, i, "".join("%d, " % o for o in po)))
@@ -324,7 +340,7 @@ def gcc_audit_chunk(ctx, tab, cases, tag):
         why = compare(c, size, align, img, rel, tab, full=False)
         if why:
             raise vlib.MachineryError("SPEC-AUDIT: gcc disagrees with Init.tla on `%s`: %s (gcc bytes %s rel %s; spec bytes %s)"
-                                      % (render_decl(tab, c, "x"), why, img, sorted(rel), c["img"]))
+                                      % (render_decl(tab, c, "x", True), why, img, sorted(rel), c["img"]))
         n += 1
 
 
@@ -421,7 +437,7 @@ def cfg_for(ctx, name):
 
 
 def case_key(c):
-    return c["ty"] + " " + " ".join(c["toks"]) + " | " + " ".join(e["c"] for e in c["ex"])
+    return c.get("form", "plain") + " " + c["ty"] + " " + " ".join(c["toks"]) + " | " + " ".join(e["c"] for e in c["ex"])
 
 
 def emit_cases(ctx, cfg, must_pass=True, **kw):
@@ -504,10 +520,11 @@ def run(ctx):
     t0 = phase(ctx, "static_replay", t0)
     for c in cases[len(cases) // 3::max(1, len(cases) // 5)][:4]:
         ctx.sample({"source": render_decl(tab, c, "x"), "expected_bytes": c["img"], "expected_rel": sorted(expected_rel(c["rel"]))})
-    run_auto(ctx, tab, cases + agg_cases, objdir)
+    plain = [c for c in cases if c.get("form", "plain") == "plain"]      # the other forms are file-scope declarations
+    run_auto(ctx, tab, plain + agg_cases, objdir)
     t0 = phase(ctx, "auto_replay", t0)
     import trace_c07
-    trace_c07.run(ctx, tab, cases)
+    trace_c07.run(ctx, tab, plain)
     t0 = phase(ctx, "trace_validation", t0)
 
 
@@ -517,9 +534,9 @@ def replay(ctx, path):
     case = info.get("case", info)
     tab = load_tables(ctx)
     objdir = private_build(ctx, "plain")
-    src = prelude(tab) + render_decl(tab, case, "x") + "\n"
+    src = prelude(tab) + render_decl(tab, case, "x", True) + "\n"
     rc, out, err = vlib.cproc(objdir, src)
-    print("source:   " + render_decl(tab, case, "x"))
+    print("source:   " + render_decl(tab, case, "x", True))
     print("expected: size %d bytes %s rel %s" % (case["size"], case["img"], sorted(expected_rel(case["rel"]))))
     if rc != 0:
         print("observed: rc=%d %s" % (rc, err.strip()[-300:]))
